@@ -38,56 +38,9 @@ def elem_terms(p):
     return u, w
 
 
-def run(M, rep, tier, only=None):
-    ctx = Ctx(M, coarse=False)
-    ctx.cfg.compose = False
-    R1 = rep.rule("C06.R1", "read and write side of a view (and of the hdf5 layer) agree on what 'no index' means (identity with None)", floor=4,
-                  technique="decision atoms on the index parameter in the two sibling methods")
-    R2 = rep.rule("C06.R2", "view index transformation = NumPy selection shifted into the window (ints, slices, ellipsis)", floor=300,
-                  technique="decision-table extraction; evaluation of the extracted guards on representatives; comparison with "
-                            "Python/NumPy index semantics")
-    R3 = rep.rule("C06.R3", "window validity: given, non-empty, rank matches, no stop beyond the extent", floor=10,
-                  technique="decision-table extraction + exhaustive comparison on representatives")
-    R4 = rep.rule("C06.R4", "HDF5 subscript errors surface as IndexError", floor=1, technique="exception translation on all raw paths")
-    R5 = rep.rule("C06.R5", "invalid views read empty / refuse writes before touching storage", floor=2,
-                  technique="event absence on the invalid paths")
-    R6 = rep.rule("C06.R6", "only 0-dimensional read results are reshaped to one element", floor=1,
-                  technique="guard of the reshaping path")
-    R7 = rep.rule("C06.R7", "a view keeps nothing it has read", floor=1, technique="stateless-handle classification (see C02.R7)")
-
-    # ---------------------------------------------------------------- R1 / R5
-    cctx = Ctx(M)
-    for nm in ("_read_data", "_write_data"):
-        f = ctx.member("DataView", nm)
-        key = "DataView." + nm
-        if f is None:
-            rep.bad(R1, key, "required mechanism not found")
-            continue
-        paths = cctx.paths(f, "DataView")
-        atoms = set()
-        for p in paths:
-            for a, v in p.decisions:
-                if a[0] in ("isnone", "truthy") and a[1] == ("param", "sl"):
-                    atoms.add(a[0])
-        rep.check(R1, key, atoms == {"isnone"}, "%s decides whether an index was given by %s: an index of 0 (or an empty tuple) "
-                  "is taken for 'no index' and the whole view is addressed" % (key, "truthiness" if "truthy" in atoms else "nothing"),
-                  site=f.file + ":%d" % f.node.lineno, what="tests `sl is None`")
-        bad = None
-        ninv = 0
-        for p in paths:
-            valid = [v for a, v in p.decisions if a[0] == "truthy" and a[1] == ("attr", ("self",), "_valid")]
-            if valid and valid[0] is False:
-                ninv += 1
-                if any(e.kind in ("layer", "raw") for e in p.events):
-                    bad = (p, "an invalid view touches storage")
-                if nm == "_write_data" and p.normal:
-                    bad = (p, "writing through an invalid view is not refused")
-                if nm == "_read_data" and (not p.normal or "array" not in show(p.terminal[1].t)):
-                    bad = (p, "reading an invalid view does not give an empty array")
-        rep.check(R5, key, bad is None and ninv > 0, bad[1] if bad else "validity is not consulted", site=f.file + ":%d" % f.node.lineno,
-                  detail=describe_path(bad[0]) if bad else None)
-
-    # the hdf5 layer underneath: "no region given" is decided by identity too (an index of 0 is a region)
+def layer_region_rule(M, rep, R1):
+    """the hdf5 layer: "no region given" is decided by identity with None (an index of 0 is a region), and only then is the
+    whole data set addressed. Shared with C01 (assignment to an index region) and C16 (row/cell writes)."""
     rcfg0 = Config(M, mode="raw")
     rcfg0.compose = False
     dsc = M.classes.get("H5DataSet")
@@ -111,6 +64,66 @@ def run(M, rep, tier, only=None):
         rep.check(R1, key, atoms == {"isnone"} and whole, "%s decides whether a region was given by %s: the index 0 addresses the whole "
                   "data set" % (key, "truthiness" if "truthy" in atoms else "something else than `slc is None`"),
                   site=f.file + ":%d" % f.node.lineno, what="tests `slc is None`, else passes the region on")
+
+
+
+def run(M, rep, tier, only=None):
+    ctx = Ctx(M, coarse=False)
+    ctx.cfg.compose = False
+    R1 = rep.rule("C06.R1", "read and write side of a view (and of the hdf5 layer) agree on what 'no index' means (identity with None)", floor=4,
+                  technique="decision atoms on the index parameter in the two sibling methods")
+    R2 = rep.rule("C06.R2", "view index transformation = NumPy selection shifted into the window (ints, slices, ellipsis)", floor=300,
+                  technique="decision-table extraction; evaluation of the extracted guards on representatives; comparison with "
+                            "Python/NumPy index semantics")
+    R3 = rep.rule("C06.R3", "window validity: given, non-empty, rank matches, no stop beyond the extent", floor=10,
+                  technique="decision-table extraction + exhaustive comparison on representatives")
+    R4 = rep.rule("C06.R4", "HDF5 subscript errors surface as IndexError", floor=1, technique="exception translation on all raw paths")
+    R5 = rep.rule("C06.R5", "invalid views read empty / refuse writes before touching storage", floor=2,
+                  technique="event absence on the invalid paths")
+    R6 = rep.rule("C06.R6", "only 0-dimensional read results are reshaped to one element", floor=1,
+                  technique="guard of the reshaping path")
+    R7 = rep.rule("C06.R7", "a view keeps nothing it has read", floor=1, technique="stateless-handle classification (see C02.R7)")
+
+    # ---------------------------------------------------------------- R1 / R5
+    cctx = Ctx(M)
+    ictx = Ctx(M, coarse=False)
+    ictx.cfg.compose = False
+    tcf = ctx.member("DataView", "_transform_coordinates")
+    if tcf is not None:
+        ictx.cfg.opaque[tcf.qual] = ("py", "tuple")
+    for nm in ("_read_data", "_write_data"):
+        f = ctx.member("DataView", nm)
+        key = "DataView." + nm
+        if f is None:
+            rep.bad(R1, key, "required mechanism not found")
+            continue
+        paths = cctx.paths(f, "DataView")
+        atoms = set()
+        # the test may sit in a private helper the index is handed to: helpers are inlined here (the index transformation
+        # itself is R2's and stays opaque), so the decision shows up on the parameter whatever function contains it
+        for p in ictx.paths(f, "DataView"):
+            for a, v in p.decisions:
+                if a[0] in ("isnone", "truthy") and a[1] == ("param", "sl"):
+                    atoms.add(a[0])
+        rep.check(R1, key, atoms == {"isnone"}, "%s decides whether an index was given by %s: an index of 0 (or an empty tuple) "
+                  "is taken for 'no index' and the whole view is addressed" % (key, "truthiness" if "truthy" in atoms else "nothing"),
+                  site=f.file + ":%d" % f.node.lineno, what="tests `sl is None`")
+        bad = None
+        ninv = 0
+        for p in paths:
+            valid = [v for a, v in p.decisions if a[0] == "truthy" and a[1] == ("attr", ("self",), "_valid")]
+            if valid and valid[0] is False:
+                ninv += 1
+                if any(e.kind in ("layer", "raw") for e in p.events):
+                    bad = (p, "an invalid view touches storage")
+                if nm == "_write_data" and p.normal:
+                    bad = (p, "writing through an invalid view is not refused")
+                if nm == "_read_data" and (not p.normal or "array" not in show(p.terminal[1].t)):
+                    bad = (p, "reading an invalid view does not give an empty array")
+        rep.check(R5, key, bad is None and ninv > 0, bad[1] if bad else "validity is not consulted", site=f.file + ":%d" % f.node.lineno,
+                  detail=describe_path(bad[0]) if bad else None)
+
+    layer_region_rule(M, rep, R1)
 
     # ---------------------------------------------------------------- R2a element transformation
     f = ctx.member("DataView", "_transform_coordinates")
